@@ -99,6 +99,9 @@ C02(e) ==
          THEN e.v \in At(produced, e.k, {}) \cup At(stored, e.k, {})
          ELSE e.err \in At(berrs, e.k, {}) \/ BackendErrOK(e.k, e.err)
   /\ e.ev = "panic" => FALSE
+  \* an expired item that a backend Read handed out now says something else than when it was handed out: the Get that
+  \* holds it will serve, as the stale value of its key, a value that was never stored under that key
+  /\ e.ev = "entrymutated" => FALSE
 
 C04(e) ==
   /\ e.ev = "quiesce" => (e.note = "" /\ e.n = 0 /\ pend = {})
